@@ -3,6 +3,7 @@ package engine
 import (
 	"net/http"
 	"strings"
+	"sync"
 	"sync/atomic"
 	"time"
 
@@ -334,10 +335,21 @@ func (bs *baseServer) Handshake(transportName string, ctx *types.HttpContext) (*
 	bs.clients.Store(id, socket)
 	bs.clientsCount.Add(1)
 
-	socket.Once("close", func(...any) {
-		bs.clients.Delete(id)
-		bs.clientsCount.Add(^uint64(0))
-	})
+	var removed sync.Once
+	remove := func(...any) {
+		removed.Do(func() {
+			bs.clients.Delete(id)
+			bs.clientsCount.Add(^uint64(0))
+		})
+	}
+	socket.Once("close", remove)
+
+	// the transport may have failed while the session was being set up, before the
+	// listener above existed: such a session must not stay registered
+	if socket.ReadyState() == "closed" {
+		remove()
+		return nil, transport
+	}
 
 	bs.Emit("connection", socket)
 
